@@ -264,6 +264,7 @@ class Exec:
         self.solver = z3.Solver()
         self.nq = 0; self.solver_s = 0.0; self.aux = None; self.nq_aux = 0
         self.defer = False; self.deferred = []; self.nodefer_sites = set(); self.n_deferred = 0
+        self.pc = [[]]; self._vars = {}
         self.paths = 0; self.steps = 0
         self.panics = []                      # (kind, msg, site, model_inputs, extra)
         self.inputs = []                      # (name, z3 var)
@@ -285,7 +286,7 @@ class Exec:
         t0 = time.time()
         if extra:
             self.solver.push()
-            for e in extra: self.solver.add(e)
+            for e in extra: self.solver.add(e)   # temporary: not mirrored
         r = self.solver.check()
         m = None
         if r == z3.sat and extra:
@@ -296,6 +297,75 @@ class Exec:
         if r == z3.unknown:
             raise Unsupported('solver returned unknown: ' + self.solver.reason_unknown())
         return r == z3.sat, m
+
+    # path-condition mirror (for cone-of-influence queries) ---------------------------------------
+    def push(self):
+        self.solver.push(); self.pc.append([])
+
+    def pop(self):
+        self.solver.pop(); self.pc.pop()
+
+    def assume(self, cond):
+        # conjunctions are stored piecewise so that cone-of-influence queries stay local
+        todo = [cond]
+        while todo:
+            c = todo.pop()
+            if z3.is_and(c):
+                todo.extend(c.children()); continue
+            if z3.is_not(c) and z3.is_or(c.arg(0)):
+                todo.extend(z3.Not(x) for x in c.arg(0).children()); continue
+            if z3.is_true(c):
+                continue
+            self.solver.add(c); self.pc[-1].append(c)
+
+    def vars_of(self, t):
+        k = t.get_id()
+        r = self._vars.get(k)
+        if r is not None:
+            return r
+        out = set(); seen = set(); todo = [t]
+        while todo:
+            x = todo.pop()
+            i = x.get_id()
+            if i in seen: continue
+            seen.add(i)
+            c = self._vars.get(i)
+            if c is not None:
+                out |= c; continue
+            if z3.is_const(x):
+                if x.decl().kind() == z3.Z3_OP_UNINTERPRETED:
+                    out.add(x.decl().name())
+            else:
+                todo.extend(x.children())
+        r = frozenset(out)
+        self._vars[k] = r
+        return r
+
+    def check_local(self, cond):
+        """sat(path condition AND cond), decided on the cone of influence of cond's variables only: a fresh solver with
+        just the path constraints that (transitively) share variables with cond. Sound because the remaining constraints
+        are over disjoint variables and the whole path condition is known satisfiable."""
+        vs = set(self.vars_of(cond))
+        cons = [c for lvl in self.pc for c in lvl]
+        cvars = [self.vars_of(c) for c in cons]
+        picked = [False] * len(cons)
+        changed = True
+        while changed:
+            changed = False
+            for i, cv in enumerate(cvars):
+                if not picked[i] and cv & vs:
+                    picked[i] = True; vs |= cv; changed = True
+        self.nq += 1
+        t0 = time.time()
+        s = z3.Solver()
+        for i, c in enumerate(cons):
+            if picked[i]: s.add(c)
+        s.add(cond)
+        r = s.check()
+        self.solver_s += time.time() - t0
+        if r == z3.unknown:
+            raise Unsupported('solver unknown (local)')
+        return (r == z3.sat), (s.model() if r == z3.sat else None)
 
     def possible(self, cond, site=None):
         """can `cond` hold on the current path? A stand-alone query (no path condition) is tried first: if `cond` is
@@ -1194,7 +1264,7 @@ class Exec:
             ok, _ = self.check(cond)
             if not ok:
                 raise PathEnd()
-            self.solver.add(cond)
+            self.assume(cond)
         fr.jump(target)
         return None
 
@@ -1244,12 +1314,12 @@ class Exec:
                     s2 = st if last else st.clone()
                     if bb is not None:
                         s2.stack[-1].jump(bb)
-                    self.solver.push()
-                    self.solver.add(cond)
+                    self.push()
+                    self.assume(cond)
                     try:
                         self.explore(s2)
                     finally:
-                        self.solver.pop()
+                        self.pop()
                 return
             raise Unsupported('step result %r' % (r,))
 
